@@ -104,7 +104,7 @@ theorem created_objects_owned_by_caller_partial (cfg : Cfg) (ctx : Ctx) (p : Nat
 /-- **special_files_never_opened.**  Whatever the host answers, every open without `O_PATH` that
     any request issues is either a re-open (through /proc or by file handle) of an inode whose
     recorded type is `S_IFREG` or `S_IFDIR`, or the `O_CREAT|O_EXCL` creation of a new regular file;
-    every other `openat` carries `O_PATH`. -/
+    every other `openat` carries `O_PATH|O_NOFOLLOW` (a lookup that never follows a final symlink). -/
 theorem special_files_never_opened (cfg : Cfg) (s : PtState) (r : Req) :
     (step cfg s r).OnlyCalls IoSafe :=
   (ioSafe_handle cfg r).h s
